@@ -201,6 +201,40 @@ INPROC_DIR = os.path.join(VERIF, "harness", "inproc")
 _inproc_built = False
 
 
+def run_apalache(module, args, expect_error=False, timeout=600):
+    """apalache-mc check <args> spec/<module>.tla under a timeout. Returns dict(ok, outcome, wall_s, cmd).
+    expect_error=True is the negative control: the run must REPORT a counterexample (a check that cannot fail proves nothing)."""
+    out = os.path.join(WORK, "apalache", f"{module}_{os.getpid()}")
+    os.makedirs(out, exist_ok=True)
+    cmd = ["timeout", str(timeout), "apalache-mc", "check"] + list(args) + [f"--out-dir={out}", module + ".tla"]
+    t0 = time.time()
+    p = subprocess.run(cmd, cwd=SPEC, stdout=subprocess.PIPE, stderr=subprocess.STDOUT, text=True, errors="replace")
+    txt = p.stdout
+    outcome = "NoError" if "The outcome is: NoError" in txt else ("Error" if "The outcome is: Error" in txt else "tool_error")
+    shutil.rmtree(out, ignore_errors=True)
+    if outcome == "tool_error":
+        raise ToolError("apalache-mc: " + " ".join(cmd) + "\n" + txt[-1500:])
+    return {"tool": "apalache", "cmd": " ".join(cmd[2:]), "outcome": outcome, "wall_s": round(time.time() - t0, 1),
+            "ok": (outcome == "Error") if expect_error else (outcome == "NoError"), "negative_control": expect_error}
+
+
+def run_tlapm(module, timeout=600, threads=4):
+    """tlapm on spec/<module>.tla (a *_proofs module); every obligation must be proved."""
+    import re
+    cache = os.path.join(WORK, "tlapm", f"{module}_{os.getpid()}")
+    os.makedirs(cache, exist_ok=True)
+    cmd = ["timeout", str(timeout), "tlapm", "--threads", str(threads), "--cache-dir", cache, "--cleanfp", module + ".tla"]
+    t0 = time.time()
+    p = subprocess.run(cmd, cwd=SPEC, stdout=subprocess.PIPE, stderr=subprocess.STDOUT, text=True, errors="replace")
+    shutil.rmtree(cache, ignore_errors=True)
+    m = re.search(r"All (\d+) obligations? proved", p.stdout)
+    failed = re.search(r"(\d+)/(\d+) obligations? failed", p.stdout)
+    if not m and not failed:
+        raise ToolError("tlapm: " + " ".join(cmd) + "\n" + p.stdout[-1500:])
+    return {"tool": "tlapm", "cmd": " ".join(cmd[2:]), "obligations": int(m.group(1)) if m else int(failed.group(2)),
+            "failed": 0 if m else int(failed.group(1)), "ok": bool(m), "wall_s": round(time.time() - t0, 1)}
+
+
 def cargo_env(extra=None):
     e = dict(os.environ)
     e["CARGO_NET_OFFLINE"] = "true"
